@@ -1077,3 +1077,107 @@ def rereport(run: Any, scratch: Any, rules: Iterable[str], as_rule: str) -> None
         # the obligation was counted as discharged above: take that back through the violation bookkeeping
         run.violation(as_rule, v.function, v.construct, f"[{v.rule}] {v.message}", node=node,
                       file=(file if line.isdigit() else v.where) or None, path=v.path)
+
+
+# ---------------------------------------------------------------------------------------------
+EVAL_CLS = "timeseries.formula_engine._formula_evaluator:FormulaEvaluator"
+
+
+def resyncs_on_divergence(prog: Program) -> tuple[bool, str]:
+    """Does the consumer re-align its inputs whenever they are out of step?  Decided on FormulaEvaluator.apply()
+    (private helpers read in, the synchronisation routine kept as a call), in the steady state (`_first_run` false),
+    for rounds whose fetched samples carry 2 and 3 distinct timestamps: no path reaches a `return` without passing
+    an awaited call of the synchronisation routine; with one distinct timestamp a return is reachable without it.
+    The "distinct timestamps" test is recognised as len(<set of .timestamp>) against a constant, any/all over a
+    (in)equality of .timestamp values, or min(..) against max(..) of .timestamp values."""
+    hit = getattr(prog, "_resync_verdict", None)    # cached on the program itself (a control builds its own Program)
+    if hit is None:
+        hit = _resyncs_on_divergence(prog)
+        prog._resync_verdict = hit  # type: ignore[attr-defined]
+    return hit
+
+
+def _resyncs_on_divergence(prog: Program) -> tuple[bool, str]:
+    raw = prog.func(f"{EVAL_CLS}.apply")
+    sync = first_run_sync_name(prog)
+    fn = inline_all(prog, raw, stop={sync})
+    fl = Flow(prog, fn)
+    cfg = fl.cfg
+    sync_nodes = [nid for nid, c in fl.calls(lambda c: isinstance(c.func, ast.Attribute) and c.func.attr == sync and u(c.func.value) == "self")
+                  if isinstance(fl._parent.get(id(c)), ast.Await)]
+    if not sync_nodes:
+        raise AnalysisError(f"{raw.qual}: no awaited call of the synchronisation routine `{sync}`")
+    rets = fl.returns()
+    if not rets:
+        raise AnalysisError(f"{raw.qual}: no return")
+
+    def ts_elems(e: ast.AST) -> bool:
+        """a comprehension / generator whose element is `<x>.timestamp`"""
+        return isinstance(e, (ast.SetComp, ast.ListComp, ast.GeneratorExp)) and isinstance(e.elt, ast.Attribute) and e.elt.attr == "timestamp"
+
+    def ts_collection(f: Flow, e: ast.AST, nid: int, want_set: bool) -> bool:
+        if ts_elems(e) and (isinstance(e, ast.SetComp) or not want_set):
+            return True
+        org = f.origin(e, nid)
+        for q in org:
+            x = q.node if q.kind == "expr" else None
+            if isinstance(x, ast.SetComp) and ts_elems(x):
+                continue
+            if isinstance(x, ast.Call) and u(x.func) in ("set", "frozenset") and len(x.args) == 1 and (
+                    ts_elems(x.args[0]) or (q.nid is not None and ts_collection(q.flow, x.args[0], q.nid, False))):
+                continue
+            if not want_set and x is not None and ts_elems(x):
+                continue
+            return False
+        return bool(org)
+
+    def scene(distinct: int, f: Flow, depth: int = 0) -> Any:
+        def atom(e: ast.AST, nid: int) -> bool | None:
+            if isinstance(e, (ast.Name, ast.Attribute)):
+                o = f.origin(e, nid, through_helpers=False)
+                if o and all(x.kind == "expr" and u(x.node) == "self._first_run" for x in o):
+                    return False
+            if isinstance(e, ast.Compare) and len(e.ops) == 1:
+                a, b, op = e.left, e.comparators[0], e.ops[0]
+                for x, y, flip in ((a, b, False), (b, a, True)):
+                    if isinstance(x, ast.Call) and u(x.func) == "len" and len(x.args) == 1 and isinstance(y, ast.Constant) \
+                            and isinstance(y.value, int) and not isinstance(y.value, bool) and ts_collection(f, x.args[0], nid, True):
+                        return cmp_eval(op, y.value, distinct) if flip else cmp_eval(op, distinct, y.value)
+                    if isinstance(x, ast.Call) and isinstance(y, ast.Call) and u(x.func) == "min" and u(y.func) == "max" \
+                            and len(x.args) == 1 and len(y.args) == 1 and ts_collection(f, x.args[0], nid, False) \
+                            and ts_collection(f, y.args[0], nid, False):
+                        lo, hi = (0, 0) if distinct == 1 else (0, 1)
+                        return cmp_eval(op, hi, lo) if flip else cmp_eval(op, lo, hi)
+            if isinstance(e, ast.Call) and u(e.func) in ("any", "all") and len(e.args) == 1 and isinstance(e.args[0], (ast.GeneratorExp, ast.ListComp)):
+                c = e.args[0].elt
+                if isinstance(c, ast.Compare) and len(c.ops) == 1 and isinstance(c.ops[0], (ast.Eq, ast.NotEq)) and all(
+                        (isinstance(z, ast.Attribute) and z.attr == "timestamp") or isinstance(z, ast.Name) for z in (c.left, c.comparators[0])) and any(
+                        isinstance(z, ast.Attribute) and z.attr == "timestamp" for z in (c.left, c.comparators[0])) and not e.args[0].generators[0].ifs:
+                    differ_somewhere = distinct > 1
+                    if isinstance(c.ops[0], ast.NotEq):
+                        return differ_somewhere if u(e.func) == "any" else None
+                    return (not differ_somewhere) if u(e.func) == "all" else None
+            if isinstance(e, ast.Call) and depth < 3:
+                # a private predicate helper: decided when all of its returns agree
+                ch = f.child(e, nid)
+                if ch is not None and not ch.fn.is_async:
+                    inner = lifted(ch, scene(distinct, ch, depth + 1))
+                    verdicts = set()
+                    for r in ch.returns():
+                        v = ch.cfg.nodes[r].ast.value  # type: ignore[union-attr]
+                        verdicts.add(None if v is None else tri(v, lambda x, r=r: inner(x, r)))
+                    if len(verdicts) == 1:
+                        return verdicts.pop()
+            return None
+        return atom
+
+    normal = {d: pruned(cfg, lifted(fl, scene(d, fl))) for d in (1, 2, 3)}
+    for d in (2, 3):
+        w = cfg.path(cfg.entry, rets, avoid=sync_nodes, edge_ok=normal[d])
+        if w is not None:
+            return False, (f"in the steady state a round whose samples carry {d} different timestamps can be evaluated without "
+                           f"the synchronisation routine `{sync}` being awaited: " + " -> ".join(cfg.describe_path(w)[-6:]))
+    if cfg.path(cfg.entry, rets, avoid=sync_nodes, edge_ok=normal[1]) is None:
+        return False, "no steady-state path evaluates an aligned round without re-synchronising (the recognised test was not found)"
+    return True, f"{raw.qual}: a round whose samples carry different timestamps always awaits `{sync}` before it is evaluated"
+
